@@ -33,14 +33,18 @@ type servedKind struct {
 	New       func() runtime.Object
 	Generic   bool // the registered strategy is the kind-generic registry.DefaultRESTStrategy
 	SubStatus bool
+	// the REST storages themselves, on an in-memory storage.Interface (store-backed histories)
+	Object  *registry.ObjectREST
+	StatusR *registry.StatusREST
+	Probe   bool // not a registration of the control plane: the probe kind registered by the harness with the same options
 }
 
-// nullDecorator lets genericregistry.Store.CompleteWithOptions finish without etcd: the stores are only used for their
-// strategy wiring (CreateStrategy / UpdateStrategy, and the status store's UpdateStrategy), never for storage calls.
-func nullDecorator(config *storagebackend.Config, resourcePrefix string, keyFunc func(obj runtime.Object) (string, error),
+// memDecorator lets genericregistry.Store.CompleteWithOptions finish without etcd: every store gets an in-memory
+// storage.Interface (memstore.go). The main store and the status store of a kind share it, as in the real server.
+func memDecorator(config *storagebackend.Config, resourcePrefix string, keyFunc func(obj runtime.Object) (string, error),
 	newFunc func() runtime.Object, newListFunc func() runtime.Object, getAttrsFunc storage.AttrFunc,
 	trigger storage.IndexerFuncs, indexers *cache.Indexers) (storage.Interface, factory.DestroyFunc, error) {
-	return nil, func() {}, nil
+	return newMemStorage(), func() {}, nil
 }
 
 func servedKinds() ([]servedKind, error) {
@@ -52,7 +56,7 @@ func servedKinds() ([]servedKind, error) {
 	if err != nil {
 		return nil, err
 	}
-	getter := generic.RESTOptions{StorageConfig: &storagebackend.Config{Prefix: "/registry"}, Decorator: nullDecorator, DeleteCollectionWorkers: 1, ResourcePrefix: "/registry"}
+	getter := generic.RESTOptions{StorageConfig: &storagebackend.Config{Prefix: "/registry"}, Decorator: memDecorator, DeleteCollectionWorkers: 1, ResourcePrefix: "/registry"}
 	var out []servedKind
 	for _, o := range opts {
 		rr, err := registry.NewResourceREST(sch, getter, o)
@@ -63,7 +67,7 @@ func servedKinds() ([]servedKind, error) {
 		if !ok {
 			return nil, fmt.Errorf("%s: object storage is %T", o.GVKR.Kind, rr.ObjectREST)
 		}
-		k := servedKind{Kind: o.GVKR.Kind, Options: o, Create: or.Store.CreateStrategy, Update: or.Store.UpdateStrategy, New: or.Store.NewFunc, SubStatus: o.SubStatus}
+		k := servedKind{Kind: o.GVKR.Kind, Options: o, Create: or.Store.CreateStrategy, Update: or.Store.UpdateStrategy, New: or.Store.NewFunc, SubStatus: o.SubStatus, Object: or}
 		_, k.Generic = o.RESTStrategy.(registry.DefaultRESTStrategy)
 		if st, ok := rr.SubresourcesREST["status"]; ok {
 			sr, ok := st.(*registry.StatusREST)
@@ -71,10 +75,37 @@ func servedKinds() ([]servedKind, error) {
 				return nil, fmt.Errorf("%s: status storage is %T", o.GVKR.Kind, st)
 			}
 			k.Status = sr.Store.UpdateStrategy
+			k.StatusR = sr
 		}
 		out = append(out, k)
 	}
 	return out, nil
+}
+
+// probeRegistration registers kind `probe` (one of the served kinds, which the control plane serves WITHOUT a status
+// subresource) through the same registry.NewResourceREST with the RESTStrategy and SubStatus of `like` (a kind served WITH
+// one): the generic wiring (status store, strategies) is then observable on a kind whose status has fields.
+func probeRegistration(kinds []servedKind, like *servedKind, probe string) (*servedKind, error) {
+	for i := range kinds {
+		if kinds[i].Kind != probe {
+			continue
+		}
+		o := kinds[i].Options
+		o.RESTStrategy, o.SubStatus = like.Options.RESTStrategy, like.Options.SubStatus
+		getter := generic.RESTOptions{StorageConfig: &storagebackend.Config{Prefix: "/registry"}, Decorator: memDecorator, DeleteCollectionWorkers: 1, ResourcePrefix: "/registry"}
+		rr, err := registry.NewResourceREST(runtimescheme.Scheme, getter, o)
+		if err != nil {
+			return nil, err
+		}
+		or, ok := rr.ObjectREST.(*registry.ObjectREST)
+		sr, ok2 := rr.SubresourcesREST["status"].(*registry.StatusREST)
+		if !ok || !ok2 {
+			return nil, fmt.Errorf("probe registration of %s has no object/status storage", probe)
+		}
+		return &servedKind{Kind: probe, Options: o, Create: or.Store.CreateStrategy, Update: or.Store.UpdateStrategy, Status: sr.Store.UpdateStrategy, New: or.Store.NewFunc,
+			Generic: true, SubStatus: true, Object: or, StatusR: sr, Probe: true}, nil
+	}
+	return nil, fmt.Errorf("kind %s is not served", probe)
 }
 
 var _ = genericregistry.Store{}
